@@ -38,6 +38,8 @@ var c03Items = []string{
 	"call_nth((g(Y), !), 1)", "call_nth(g(Y), 2)", "call_nth((g(Y), !), N)", "call_nth(!, 1)",
 	// user predicates that share their NAME with a deterministic built-in of another arity
 	"atom(Y, k)", "integer(X, k, k)", "var(Y)", "Y = 2",
+	// call/N whose closure is a control construct (or a partial application of one)
+	"call(',', g(Y), !)", "call(','(g(Y)), !)", "call(',', !, g(Y))", "call(';', (g(Y), !), fail)", "call(','(true), (g(Y), !, put_char(m)))",
 }
 
 var c03Contexts = []string{
@@ -227,7 +229,7 @@ func c03Two(w *h.W, run func([]T, int), a, b []int, shape int) {
 func init() {
 	h.Register(&h.Check{
 		ID: "C03",
-		Rule: "all control skeletons: predicate t/2 whose enumerated clause body is every sequence of <= L items over 41 item shapes (generators that trace entry/redo on the output, tests, '!', recursive/cutting sub-predicates, and the opaque wrappers call/1, call/2, \\+, once, ->, findall, bagof, setof, catch, call_nth containing cuts), placed between fixed clauses, as two enumerated clauses, and as a top-level disjunction; each skeleton is run in 14 calling contexts (older choice points before/after, inside findall, as last call, three levels deep, under call/N, \\+, ->, once, call_nth, followed by a cut). Cuts occur only as direct conjuncts of a clause body or top-level disjunct, as the property states. Non-trivial = the reference yields an answer or error; distinct = program text.",
+		Rule: "all control skeletons: predicate t/2 whose enumerated clause body is every sequence of <= L items over 46 item shapes (generators that trace entry/redo on the output, tests, '!', recursive/cutting sub-predicates, and the opaque wrappers call/1, call/2, \\+, once, ->, findall, bagof, setof, catch, call_nth containing cuts), placed between fixed clauses, as two enumerated clauses, and as a top-level disjunction; each skeleton is run in 14 calling contexts (older choice points before/after, inside findall, as last call, three levels deep, under call/N, \\+, ->, once, call_nth, followed by a cut). Cuts occur only as direct conjuncts of a clause body or top-level disjunct, as the property states. Non-trivial = the reference yields an answer or error; distinct = program text.",
 		Explanation: "state = one skeleton program loaded into a fresh real interpreter; transition = one context query run to exhaustion, comparing the answer sequence AND the character trace written by every generator clause with the reference machine (ISO cut barriers)",
 		Assumptions: []string{"reference machine ref/solve implements ISO 7.8.4 cut semantics (self-checked against the ISO examples)", "placements of '!' inside nested ;/,/-> are excluded: this implementation makes them local by design and the property excludes them"},
 		Work:        c03Work,
